@@ -349,3 +349,125 @@ def distribution(stats, impl_lines):
             d["vetoes"] += 1
         elif w[0] == "rejected":
             d["rejected"] += 1
+
+
+# ------------------------------------------------------------------------------------ minimisation
+def case_parts(case):
+    head = case[:2]
+    beh = [l for l in case[2:] if l.startswith("beh ")]
+    ops = [l for l in case[2:] if l.startswith("op ")]
+    return head, beh, ops
+
+
+def differs(exe, case, prop):
+    rc_i, ci, rc_m, cm = run_cases(exe, [case], timeout=120)
+    if rc_i != 0 or not ci or not cm:
+        return True
+    return projected(prop, ci[0]) != projected(prop, cm[0])
+
+
+def minimise_case(exe, case, prop, pred=None, budget=150):
+    """shrink a disagreeing case: cut the history after the first differing op, then drop ops and
+    behaviour entries while `pred` (default: projected traces differ) still holds.  Removing an op
+    renumbers later ops, so behaviour keys are renumbered with it."""
+    pred = pred or (lambda c: differs(exe, c, prop))
+    head, beh, ops = case_parts(case)
+
+    def rebuild(beh, ops):
+        return head + beh + ops
+
+    def drop_op(beh, ops, k):
+        nb = []
+        for b in beh:
+            w = b.split()
+            o = int(w[2][2:])
+            if o == k:
+                continue
+            if o > k:
+                w[2] = "op%d" % (o - 1)
+            nb.append(" ".join(w))
+        return nb, ops[:k] + ops[k + 1:]
+
+    # 1. truncate from the end
+    n = 0
+    while len(ops) > 1 and n < budget:
+        nb, no = drop_op(beh, ops, len(ops) - 1)
+        n += 1
+        if pred(rebuild(nb, no)):
+            beh, ops = nb, no
+        else:
+            break
+    # 2. drop single ops (not the first: construct)
+    k = len(ops) - 2
+    while k >= 1 and n < budget:
+        nb, no = drop_op(beh, ops, k)
+        n += 1
+        if pred(rebuild(nb, no)):
+            beh, ops = nb, no
+        k -= 1
+    # 3. drop behaviour entries
+    k = len(beh) - 1
+    while k >= 0 and n < budget * 2:
+        nb = beh[:k] + beh[k + 1:]
+        n += 1
+        if pred(rebuild(nb, ops)):
+            beh = nb
+        k -= 1
+    return rebuild(beh, ops)
+
+
+def replica_case(rng, cfg, name, nops):
+    """C11: authority i0, replica i1 fed with previousTransition().destination after every step;
+    the replica's guards are hostile (cancel / redirect) and must never be consulted."""
+    lines = ["case %s" % name, cfg.cfg_line()]
+    ops = ["construct 0 1 %d" % rng.choice([0, 255]), "construct 1 0 %d" % rng.choice([0, 165])]
+    if cfg.manual:
+        ops += ["enter 0", "replayEnterFrom 1 0"]
+    else:
+        ops += ["replayFrom 1 0"]
+    for _ in range(nops):
+        r = rng.random()
+        if r < 0.35: ops.append("update 0")
+        elif r < 0.45: ops.append("react 0")
+        elif r < 0.70: ops.append("immediateChangeTo 0 %d" % rng.randrange(cfg.n))
+        elif r < 0.80 and cfg.payload != "none": ops.append("immediateChangeWith 0 %d %d" % (rng.randrange(cfg.n), rng.randrange(200)))
+        elif r < 0.88: ops.append("changeTo 0 %d" % rng.randrange(cfg.n)); continue
+        elif r < 0.94 and cfg.plans: ops.append("planAppend 0 %d %d" % (rng.randrange(cfg.n), rng.randrange(cfg.n))); ops.append("succeed 0 %d" % rng.randrange(cfg.n)); continue
+        elif r < 0.97: ops.append("replayTransition 1 255")
+        else: ops.append("update 0")
+        ops.append("replayFrom 1 0")
+    beh = []
+    for k, op in enumerate(ops):
+        w = op.split()
+        inst = int(w[1])
+        for m in GUARDS + PHASES_U + PHASES_R:
+            for sid in list(range(min(cfg.n, 6))) + [255]:
+                for occ in range(cfg.L + 1 if m in GUARDS else 1):
+                    if inst == 1 and m in GUARDS:
+                        if k >= 2:   # hostile replica guards
+                            beh.append("beh i1 op%d occ%d %s s%d S : %s" % (k, occ, m, sid, rng.choice(["cancel", "changeTo %d" % rng.randrange(cfg.n), "cancel ; changeTo %d" % rng.randrange(cfg.n)])))
+                    elif inst == 0 and rng.random() < 0.3:
+                        acts = actions_for(rng, cfg, m, {})
+                        if acts:
+                            beh.append("beh i0 op%d occ%d %s s%d S : %s" % (k, occ, m, sid, " ; ".join(acts)))
+    return lines + beh + ["op " + o for o in ops]
+
+
+def oracle_replica(impl_lines):
+    """C11 (search support): after every replay step the replica's active state equals the authority's,
+    and no guard was delivered to the replica while replaying"""
+    act = {}
+    cur_guard = {}
+    for l in impl_lines:
+        w = l.split()
+        if w[0] == "cb" and w[1] == "i1" and w[4] in GUARDS and w[2] not in ("op1",):
+            cur_guard[w[2]] = l
+        if w[0] == "api":
+            f = fields(l)[1]
+            act[w[1]] = f["act"]
+            if w[1] == "i1" and w[3] in ("replayTransition", "replayEnter"):
+                if w[2] in cur_guard:
+                    return "a guard was consulted on the replica during %s: %s" % (w[3], cur_guard[w[2]])
+                if "i0" in act and act["i0"] != f["act"] and not (w[3] == "replayTransition" and f["ret"] == "0" and False):
+                    return "after %s the replica is in state %s, the authority in %s" % (w[2] + " " + w[3], f["act"], act["i0"])
+    return None
